@@ -21,7 +21,7 @@ from mc import ufo_build as B
 from mc.explore import Property, Result, digest, violation
 from mc.outline_ref import otround
 
-GLYPHS = ["a", "b", "c", "acutecomb"]
+GLYPHS = ["a", "b", "c", "acutecomb", "h"]
 G1, G2 = "public.kern1.A", "public.kern2.B"
 KV = [None, -20, -50]
 TOPOLOGIES = {
@@ -46,6 +46,14 @@ def master_spec(i, kcc, kgg, anchor):
         "c": {"width": 540, "unicodes": [0x63], "components": [("a", (1, 0, 0, 1, 10 + d, 0))]},
         "acutecomb": {"width": 0, "unicodes": [0x301], "contours": [B.box(-20, 500, 20 + d, 560)],
                       "anchors": [("_top", 0, 500 + i)]},
+        # a node lying exactly on a horizontal edge in the first master and displaced in the others
+        # and a curve that is flat in the first master only:
+        # compatible point-for-point, but reducible by a per-master charstring optimiser
+        "h": {"width": 560, "unicodes": [0x68],
+              "contours": [[(0, 0, "line"), (50, 0 + d, "line"), (100, 0, "line"), (100, 100, "line"),
+                            (0, 100 + d, "line")],
+                           [(200, 0, "line"), (200, 30 * i, None), (300, 30 * i, None), (300, 0, "curve"),
+                            (300, -50, "line"), (200, -50, "line")]]},
     }
     kerning = [("b", "a", -10 - i)]
     if kcc is not None:
@@ -160,6 +168,9 @@ class C10(Property):
                             anchors = [0, 1, 2, 3][:nfull] if (kern[0][0] + kern[-1][1]) % 2 else [0] * nfull
                             out.append([{"topo": topo, "kern": [list(k) for k in kern], "anchors": anchors,
                                          "flavour": fl, "vf": vf, "axis_map": amap}])
+                            if fl == "cff2" and kern == kerns[0]:
+                                out.append([{"topo": topo, "kern": [list(k) for k in kern], "anchors": anchors,
+                                             "flavour": fl, "vf": vf, "axis_map": amap, "opt0": True}])
         return out
 
     def run(self, h, b):
@@ -176,7 +187,9 @@ class C10(Property):
             ds2, _, _, _ = build_ds(c)
             mds = ufo2ft.compileInterpolatableTTFsFromDS(ds2, useProductionNames=False)
         else:
-            vfont = ufo2ft.compileVariableCFF2(ds, useProductionNames=False, variableFeatures=c["vf"])
+            # optimizeCFF: the default (specialise the merged variable charstrings) or 0
+            okw = {"optimizeCFF": 0} if c.get("opt0") else {}
+            vfont = ufo2ft.compileVariableCFF2(ds, useProductionNames=False, variableFeatures=c["vf"], **okw)
             ds2, _, _, _ = build_ds(c)
             mds = ufo2ft.compileInterpolatableOTFsFromDS(ds2, useProductionNames=False)
         vfont = O.reload(vfont)
@@ -198,6 +211,11 @@ class C10(Property):
             mfont = master_fonts[mi]
             # ---- outlines and advances --------------------------------------------------
             for g in GLYPHS:
+                if g == "h" and c["flavour"] == "cff2" and not c.get("opt0"):
+                    # the specialiser legitimately simplifies this glyph's degenerate segments in the
+                    # variable font (see KF-C12-*); the build must succeed, the point structure is compared
+                    # in the optimizeCFF=0 states
+                    continue
                 ctr["outline_checks"] += 1
                 o1, o2 = outline(inst, g), outline(mfont, g)
                 if not close_enough(o1, o2, 1.0):
